@@ -101,3 +101,18 @@ var randState uint64 = 0x1234567
 func RandUint64() uint64 { return SplitMix(&randState) }
 
 func ResetRand(seed uint64) { randState = seed }
+
+// SeedValue replaces a crypto/rand 32-byte seed by bytes from the run's deterministic stream.
+func SeedValue[T ~[32]byte](f func() (T, error)) (T, error) {
+	if S == nil {
+		return f()
+	}
+	var t T
+	for i := 0; i < 32; i += 8 {
+		v := RandUint64()
+		for j := 0; j < 8; j++ {
+			t[i+j] = byte(v >> (8 * j))
+		}
+	}
+	return t, nil
+}
